@@ -2,9 +2,10 @@
 
 Only the clauses whose truth is in the shape of the code are decided (stated in the evidence):
 
-P-PROPAGATE  BaseParam.__setattr__ stores a declared field and, once initialised, forwards (name, value) unmodified to
-             every BaseParam value of its __dict__; __post_init__ switches propagation on and re-assigns every public
-             BaseParam field; no subclass overrides these hooks
+P-PROPAGATE  BaseParam.__setattr__ evaluated on a tree of parameter groups: a value reaches, unmodified, exactly the
+             groups that declare the name (nothing below a group that is not initialised); __post_init__ switches
+             propagation on and re-assigns every public BaseParam field; no subclass overrides these hooks
+D-BUFFER     MPRenderer.clear evaluated with and without keep_static_artists: the per-frame buffers are empty afterwards
 P-DECL       every parameter class is a @dataclass deriving from BaseParam, every parameter-typed field is created by
              a default_factory yielding that type (no shared instances, no undecorated class whose fields would be
              silently ignored by __setattr__)
